@@ -17,6 +17,11 @@ def run(m):
         shutil.copytree('/repo', repo, ignore=shutil.ignore_patterns('.git'))
         os.makedirs(ver)
         if os.path.exists('/verif/known_findings.json'): shutil.copy('/verif/known_findings.json', ver)
+        # 'base': a behaviour-preserving variant (benign/<name>) applied first, so that the defect is
+        # planted in the refactored form of the code (the generalised rule must still see it)
+        if m.get('base'):
+            bp=subprocess.run(['patch','-p1','-s','-i','/verif/benign/%s/patch.diff'%m['base']],cwd=repo,capture_output=True,text=True)
+            if bp.returncode!=0: return (m['name'],'BROKEN','base patch does not apply: '+bp.stdout[-200:])
         edits=m.get('edits') or [(m['file'], m['old'], m['new'])]
         for (f,old,new) in edits:
             path=os.path.join(repo,f); s=open(path).read()
